@@ -17,11 +17,13 @@ What is proved instead:
     but offline_mode), `mustrevalidate_of_first_reply_after_revalidations`: the same after any number of 304 updates when
     the directive was on the *first* reply, and `mustrevalidate_from_304_counterexample`: a must-revalidate that arrives
     with a 304 is not honoured,
+  * `shift_invariant`: every decision is invariant under moving all absolute times of a scenario,
   * `lifetime_passed_after_revalidations_partial`: the first theorem along whole histories (a stored reply followed by any
     number of 304s that rewrite the stored header): the lifetime of the *current* stored header, relative to its Date, bounds
     how long the entry is served without contacting the origin.
 -/
 import SquidModel.Cache.FreshLemmas
+import SquidModel.Cache.FreshShift
 
 namespace SquidModel.C12
 open SquidModel.Cache.Fresh SquidModel.Gen
@@ -329,6 +331,31 @@ theorem served_implies_unexpired (cfg : Config) (R : Rule) (now : Int) (e : Entr
       rw [this] at hserved; cases hserved
     · omega
   | true => exact lookup_negCached_served cfg R now e q hoff hneg hserved
+
+/-- **Translation invariance.** Moving the clock and every absolute header time (Date, Expires, Last-Modified) of a scenario
+by `k` seconds changes neither what is admitted to the cache, nor the outcome of the later request, nor the two numbers the
+end-to-end harness compares (the Age shown on a hit = `now1 - timestamp`, the If-Modified-Since sent upstream relative to the
+first exchange = `now0 - lastModified()`), provided the comparisons against the epoch keep their outcome (`regular`).
+The Lean driver evaluates every scenario at the nominal clock 1700000000; the binary runs it at the real clock. -/
+theorem shift_invariant (cfg : Config) (R : Rule) (k now0 now1 : Int) (r : Reply) (rt : Int) (q : Request)
+    (hv : cfg.varyIgnoreExpire = false) (hr : r.regular k now0)
+    (hx : hdrExpirationTime cfg now0 r = -1 ∨ 0 ≤ (store cfg now0 r rt).expires)
+    (he : (store cfg now0 r rt).regular k) (hclock : 0 < now1 ∧ 0 < now1 + k) :
+    admitReply cfg R (now0 + k) (r.shift k) rt = (admitReply cfg R now0 r rt).map (Entry.shift k) ∧
+    lookup cfg R (now1 + k) (admitReply cfg R (now0 + k) (r.shift k) rt) q = lookup cfg R now1 (admitReply cfg R now0 r rt) q ∧
+    (∀ e, admitReply cfg R now0 r rt = some e →
+      (now1 + k) - (e.shift k).timestamp = now1 - e.timestamp ∧ (now0 + k) - (e.shift k).lastModified = now0 - e.lastModified) :=
+  scenario_shift cfg R k now0 now1 r rt q hv hr hx he hclock
+
+-- non-vacuity of `shift_invariant`: a typical scenario at the nominal clock, moved by 90 000 000 s (to about the real clock)
+example :
+    let r : Reply := { date := 1700000000 - 100, hasExpires := true, expiresHdr := 1700000000 + 50, lastModified := 1700000000 - 5000,
+                       ageHdr := 7, hasCc := true, sMaxAge := none, maxAge := some 3600, mustRevalidate := false,
+                       proxyRevalidate := false, noCacheNoParams := false, ccPrivate := false, immutable := false,
+                       staleIfError := none, pragmaNoCache := false, hasVary := false, contentLength := 2 }
+    r.regular 90000000 1700000000 ∧ (store defaultConfig 1700000000 r 0).regular 90000000 ∧
+    0 ≤ (store defaultConfig 1700000000 r 0).expires := by
+  refine ⟨⟨?_, ?_, ?_, ?_, ?_, ?_, ?_⟩, ⟨?_, ?_, ?_⟩, ?_⟩ <;> first | decide | (intro m hm; simp at hm; omega) | (right; decide) | (left; decide)
 
 -- non-vacuity: the hypotheses of the main theorem are satisfiable, and the decision really depends on the time
 -- Date 100 s old, max-age=3600, plain request in the same second: served from the cache with Age 100
